@@ -668,6 +668,8 @@ def o_C19(ctx):
             v.append(([c.id], "FindTransaction: %s" % first(t, "x_findwhy", "")))
         if first(t, "x_rb") == "panic":
             v.append(([c.id], "%s: panic while comparing with rust-bitcoin" % c.entry))
+        if first(t, "x_cbconv") == "0":
+            v.append(([c.id], "%s: a conversion to the rust-bitcoin type (TxOut / OutPoint / as_bitcoin_script) made inside a visitor callback differs from the object's own fields" % c.entry))
     v.extend(find_violations(ctx))
     return v
 
